@@ -350,6 +350,10 @@ def convDims (dims : List Dim) (dim nk : Nat) : List Dim :=
       ⟨o, k, k - o - 1⟩
     else d
 
+/-- what `convolve` re-obtains after releasing the coefficients and all knot vectors, in source order -/
+def convSteps (t : Tab) (dim nk : Nat) : List Step :=
+  (4 * ncoef (convDims t.dims dim nk) :: knotBlocks (convDims t.dims dim nk)).map .a
+
 def convolve (c : Cfg) (t : Tab) (cd : Option Nat) (dim nk : Nat) : Out :=
   if t.ndim ≤ dim ∨ nk = 0 then
     if c.convCheck then ⟨t, cd, .threw, []⟩ else ⟨t, cd, .crash, []⟩
@@ -357,7 +361,7 @@ def convolve (c : Cfg) (t : Tab) (cd : Option Nat) (dim nk : Nat) : Out :=
   else
     let dims' := convDims t.dims dim nk
     let frees := (4 * ncoef t.dims :: knotBlocks t.dims).map Ev.d
-    let r := runSteps cd ((4 * ncoef dims' :: knotBlocks dims').map .a) []
+    let r := runSteps cd (convSteps t dim nk) []
     let t1 : Tab := { t with dims := dims' }
     if r.2.2.2 then ⟨t1.apply (frees ++ r.1), r.2.2.1, .ok, frees ++ r.1⟩
     else if c.convGuard then
@@ -403,9 +407,9 @@ def padBlocks (dims : List Dim) : List Nat :=
   [4 * dims.length, 8 * dims.length, 8 * dims.length] ++ knotBlocks dims ++
   [8 * dims.length, 8 * dims.length, 8 * dims.length, 16 * dims.length, 4 * ncoef dims]
 
-/-- a padding table once built: no periods, no aux store; `ledger` is what its allocator handed out -/
-def padTab (dims : List Dim) (ledger : List Nat) : Tab :=
-  { ndim := dims.length, dims := dims, core := true, ledger := ledger }
+/-- a padding table once built: no periods, no aux store; `led` is the state of its allocator -/
+def padTab (dims : List Dim) (led : Led) : Tab :=
+  { ndim := dims.length, dims := dims, core := true, ledger := led.1, bad := led.2 }
 
 /-- dimensions of the result over `k` inputs: those of the inputs, then the stacking dimension with
     `k + 2` coefficients (the inputs and the two paddings) and `k + 2 + order + 1` knots -/
@@ -506,8 +510,8 @@ def stack (c : Cfg) (w : World) (i : Nat) (ts : List Tab) (order : Nat) : StepOu
         if !r3.2.2.2 then stackFail c w r3.2.2.1 [(r1.1, r1.2.1), (r2.1, r2.2.1), (r3.1, r3.2.1)]
         else
           let t := (stackTarget c dims ts.length order).apply r3.1
-          let p1 := padTab dims (ledgerOf r1.1).1
-          let p2 := padTab dims (ledgerOf r2.1).1
+          let p1 := padTab dims (ledgerOf r1.1)
+          let p2 := padTab dims (ledgerOf r2.1)
           if c.stackDelete then
             let d1 := destroy p1
             let d2 := destroy p2
@@ -516,7 +520,7 @@ def stack (c : Cfg) (w : World) (i : Nat) (ts : List Tab) (order : Nat) : StepOu
               r1.1 ++ r2.1 ++ r3.1 ++ d1.2 ++ d2.2, true⟩
           else
             -- the paddings are abandoned with everything they own
-            ⟨{ (w.put i (some t)) with cd := (r3.2.2.1), retired := (p1.ledger, 0) :: (p2.ledger, 0) :: w.retired }, .ok,
+            ⟨{ (w.put i (some t)) with cd := (r3.2.2.1), retired := (p1.ledger, p1.bad) :: (p2.ledger, p2.bad) :: w.retired }, .ok,
               r1.1 ++ r2.1 ++ r3.1, true⟩
 
 def step (c : Cfg) (w : World) : Op → StepOut
